@@ -161,7 +161,7 @@ DEFAULT_FEATURES = dict(
     in_sub=True, not_in_sub=False, exists=True, not_exists=True, scalar_sub=True,
     derived=True, cte=True, order=True, limit=True, offset_no_limit=False, order_expr=True,
     cast=True, concat=True, group_expr=True, where_false=True, case_no_else=False,
-    corr_in_sub=False, neg=True, null_lit=True, sum_=True,
+    corr_in_sub=False, neg=True, null_lit=True, sum_=True, derived_limit=False,
 )
 
 
@@ -352,7 +352,16 @@ class QueryGen:
             q = sub.select_core(allow_order=False, max_items=3)
             self.tags |= sub.tags
             scope = [(f"{a0}.c{i}", ty, True) for i, ty in enumerate(q["types"])]
-            sql = f"({q['sql']}) AS {a0}"
+            inner = q["sql"]
+            if self.on("derived_limit", 0.35):
+                # a LIMIT under a total order inside the derived table: filters above it must not be
+                # pushed below it
+                self.tag("derived_limit")
+                keys = ", ".join(f"c{i}{' DESC' if r.random() < 0.3 else ''}" for i in range(q["n"]))
+                inner += f" ORDER BY {keys} LIMIT {r.choice([1, 2, 3, 5])}"
+                if r.random() < 0.3:
+                    inner += f" OFFSET {r.choice([1, 2])}"
+            sql = f"({inner}) AS {a0}"
         else:
             sql, scope = f"{t0.name} AS {a0}", self.table_scope(t0, a0)
         njoin = 0
@@ -552,7 +561,8 @@ class QueryGen:
         if self.on("order", 0.35):
             self.tag("order")
             want_limit = self.on("limit", 0.5)
-            if want_limit:
+            want_offset_only = (not want_limit) and self.on("offset_no_limit", 0.2)
+            if want_limit or want_offset_only:
                 # total order: all output columns are keys
                 idx = list(range(n))
                 r.shuffle(idx)
@@ -567,7 +577,8 @@ class QueryGen:
                 if r.random() < 0.5:
                     self.tag("offset")
                     sql += f" OFFSET {r.choice([0, 1, 2, 7])}"
-            elif self.on("offset_no_limit", 0.2):
+            elif want_offset_only:
                 self.tag("offset_no_limit")
+                limited = True
                 sql += f" OFFSET {r.choice([0, 1, 2])}"
         return Q(sql, self.tags, n, order, limited)
